@@ -48,16 +48,20 @@ void PulseNode :: InvalidatePulseTime(bool clearPrevResult)
 
 void PulseNode :: GetPulseTimeAux(uint64 now, uint64 & min)
 {
-   // First, update myself, if necessary...
-   if (_myScheduledTimeValid == false)
-   {
-      _myScheduledTimeValid = true;
-      _myScheduledTime = GetPulseTime(PulseArgs(now, _myScheduledTime));
-   }
-
-   // Then handle any of my kids who need to be recalculated also
    PulseNode * & firstNeedy = _firstChild[LINKED_LIST_NEEDSRECALC];
-   if (firstNeedy) while(firstNeedy) firstNeedy->GetPulseTimeAux(now, min);  // guaranteed to move (firstNeedy) out of the recalc list!
+   do
+   {
+      // First, update myself, if necessary...
+      if (_myScheduledTimeValid == false)
+      {
+         _myScheduledTimeValid = true;
+         _myScheduledTime = GetPulseTime(PulseArgs(now, _myScheduledTime));
+      }
+
+      // Then handle any of my kids who need to be recalculated also
+      while(firstNeedy) firstNeedy->GetPulseTimeAux(now, min);  // guaranteed to move (firstNeedy) out of the recalc list!
+   }
+   while(_myScheduledTimeValid == false);  // in case a callback above called InvalidatePulseTime() on us:  if we left now, nobody would ever ask us for our new time
 
    // Recalculate our effective pulse time
    const uint64 oldAggregatePulseTime = _aggregatePulseTime;
